@@ -809,8 +809,7 @@ fn oracles(
     // ---- opaque types only: the bindings (with their own layout assertions, which speak about the containers of the opaque
     //      types too) compile as they are
     if c.blocked.is_empty() && !c.opaque.is_empty() {
-        let head = match empty_opaque_base(c) { Some(b) => format!("// empty-opaque-base: {b}\n"), None => String::new() };
-        rustc_queue.push((format!("{head}{}", run.bindings), full.bindings.clone(), case_json(c)));
+        rustc_queue.push((format!("{}{}", region_heads(c, run), run.bindings), full.bindings.clone(), case_json(c)));
     }
     if !c.namespaces_on && !c.blocked.is_empty() && !ns_finding_hit {
         let mut raw = String::new();
@@ -853,11 +852,35 @@ fn oracles(
             // … reached through an allow-listed type reference / alias item (the item the analysis asks is the
             // reference, which is opaque and not blocklisted); a container naming the blocklisted item directly
             // is answered by the blocklist test first and is NOT in the region
-            let head = both_head(run);
-            let head2 = match empty_opaque_base(c) { Some(b) => format!("// empty-opaque-base: {b}\n"), None => String::new() };
-            rustc_queue.push((format!("{head2}{head}{raw}\n{}", run.bindings), full.bindings.clone(), case_json(c)));
+            rustc_queue.push((format!("{}{raw}\n{}", region_heads(c, run), run.bindings), full.bindings.clone(), case_json(c)));
         }
     }
+}
+
+/// input-defined part of the region of `derive_through_blocklisted_opaque`: a record that the options / annotations both blocklist and
+/// make opaque, and that another record uses by value as a base class or a data member
+fn both_by_value(c: &Case) -> Option<String> {
+    let p = &c.prog;
+    for &i in &c.blocked {
+        let d = &p.decls[i];
+        if !matches!(d.kind, DKind::Struct | DKind::Union | DKind::Class) { continue; }
+        let opaque_too = c.opaque.contains(&i) || am::set_matches(&c.opaque_pats, &p.path(i)) || d.text.contains("rustbindgen opaque");
+        if !opaque_too { continue; }
+        let r = p.type_ref(i);
+        let used = p.decls.iter().enumerate().any(|(u, du)| u != i && !c.blocked.contains(&u)
+            && (du.text.contains(&format!(": public {r}")) || du.text.contains(&format!(": {r} {{")) || du.text.contains(&format!("  {r} m")) || du.text.contains(&format!("{{ {r} m"))));
+        if used { return Some(d.base.clone()); }
+    }
+    None
+}
+
+/// all region heads of a case (comment lines in front of the bindings handed to rustc)
+fn region_heads(c: &Case, run: &RunOut) -> String {
+    let mut h = String::new();
+    if let Some(b) = empty_opaque_base(c) { h.push_str(&format!("// empty-opaque-base: {b}\n")); }
+    if let Some(b) = both_by_value(c) { h.push_str(&format!("// blocklisted-and-opaque: {b} (used by value)\n")); }
+    h.push_str(&both_head(run));
+    h
 }
 
 /// region of known finding `opaque_empty_base_counted` (input-defined): a C++ record derives from an empty record that the options
@@ -959,13 +982,19 @@ fn run_rustc(queue: &[(String, String, String)], st: &mut Stats, fails: &mut Vec
                             eprintln!("baseline does not compile: {}", fe.lines().filter(|l| l.starts_with("error")).take(3).collect::<Vec<_>>().join(" | "));
                         }
                         st.rustc_baseline_broken += 1;
-                    } else if b.starts_with("// empty-opaque-base") && e.lines().filter(|l| l.starts_with("error[")).all(|l| l.contains("E0080")) {
-                        // known finding `opaque_empty_base_counted`: the derived record gets a `_base` member for an empty base made
-                        // opaque, and bindgen's own size assertion for the derived record fails
-                        st.known("opaque_empty_base_counted", format!("{}; input {}", b.lines().next().unwrap_or(""), &input[..input.len().min(1500)]));
-                    } else if b.lines().take(2).any(|l| l.starts_with("// blocklisted-and-opaque")) && (e.contains("E0204") || e.contains("E0740") || e.contains("E0277")) && !e.contains("E0425") && !e.contains("E0412") && !e.contains("E0080") {
-                        // known finding `derive_through_blocklisted_opaque` (region computed from the dump in `oracles`)
-                        st.known("derive_through_blocklisted_opaque", format!("{}; input {}", b.lines().next().unwrap_or(""), &input[..input.len().min(1500)]));
+                    } else if {
+                        // every error belongs to a region whose (input-defined / dump-defined) head is present
+                        let heads: Vec<&str> = b.lines().take(4).filter(|l| l.starts_with("// ")).collect();
+                        let has_empty = heads.iter().any(|l| l.starts_with("// empty-opaque-base"));
+                        let has_both = heads.iter().any(|l| l.starts_with("// blocklisted-and-opaque"));
+                        let errs: Vec<&str> = e.lines().filter(|l| l.starts_with("error[")).collect();
+                        let in_empty = |l: &str| has_empty && l.contains("E0080");
+                        let in_both = |l: &str| has_both && (l.contains("E0204") || l.contains("E0740") || l.contains("E0277"));
+                        !errs.is_empty() && errs.iter().all(|l| in_empty(l) || in_both(l))
+                    } {
+                        let heads: Vec<&str> = b.lines().take(4).filter(|l| l.starts_with("// ")).collect();
+                        if e.contains("E0080") { st.known("opaque_empty_base_counted", format!("{}; input {}", heads.iter().find(|l| l.starts_with("// empty-opaque-base")).unwrap_or(&""), &input[..input.len().min(1500)])); }
+                        if e.contains("E0204") || e.contains("E0740") || e.contains("E0277") { st.known("derive_through_blocklisted_opaque", format!("{}; input {}", heads.iter().find(|l| l.starts_with("// blocklisted-and-opaque")).unwrap_or(&""), &input[..input.len().min(1500)])); }
                     } else {
                         let first: String = e.lines().filter(|l| l.starts_with("error")).take(3).collect::<Vec<_>>().join(" | ");
                         fails.push(Failure { kind: "oracle-compile", detail: format!("bindings with blocklisted types do not compile against user-supplied definitions of the C size/alignment (no derives): {first}"), input: input.clone() });
@@ -1212,8 +1241,7 @@ fn main() {
                     if ok && extra.len() > c.flags.len() {
                         if let Ok(run2) = run_bindgen(&scratch, &c, &extra, false) {
                             st.bump("module-raw-line-stub-runs");
-                            let head2 = match empty_opaque_base(&c) { Some(b) => format!("// empty-opaque-base: {b}\n"), None => String::new() };
-                            rustc_queue.push((format!("{head2}{}{}", both_head(&run), run2.bindings), full.bindings.clone(), case_json(&c)));
+                            rustc_queue.push((format!("{}{}", region_heads(&c, &run), run2.bindings), full.bindings.clone(), case_json(&c)));
                         }
                     }
                 }
